@@ -365,7 +365,7 @@ Definition oracle_C13 (x : case) : bool := o_ok13 (o_final x).
 Definition oracle_C15 (x : case) : bool := o_ok15 (o_final x).
 Definition oracle_C05 (x : case) : bool := o_ok5 (o_final x).
 Definition oracle_C14 (x : case) : bool := c14_run [] 0 (snd (fst x)) (snd x).
-Definition oracle (x : case) : bool :=
+Definition oracle_base (x : case) : bool :=
   oracle_C03 x && oracle_C01 x && oracle_C13 x && oracle_C15 x && oracle_C05 x && oracle_C14 x.
 
 (* diagnosis: index of the first op after which a given flag of the oracle state is false *)
@@ -377,3 +377,122 @@ Fixpoint first_bad_from (proj : ost -> bool) (known : list peer) (i : N) (o : os
   | _, _ => None
   end.
 Definition first_bad (proj : ost -> bool) (x : case) : option N := first_bad_from proj [] 0 o0 (snd (fst x)) (snd x).
+
+(* ---------------------------------------------------------------------------------------------- *)
+(* C04 at the client level: per peer, the Bitswap reference view folded over the wantlists generated *)
+(* for that peer, against W = the CIDs of the queries that wait for the network.  Same ghost          *)
+(* definitions as Corr_wantlist.v (told / latest solicited answer / delivered since asked), all from   *)
+(* API-level observables.  A generated wantlist is taken as delivered; C05 guarantees that whenever    *)
+(* that is in doubt the next one is a full wantlist, which overwrites the view.                        *)
+
+Record pv := MkPv { v_view : list cid; v_ans : list (cid * N); v_deliv : list cid; v_told : list cid }.
+Definition pv0 : pv := MkPv [] [] [] [].
+
+Record c4 := MkC4 { c4_w : list cid; c4_peers : list (peer * pv); c4_ok : bool }.
+
+Definition pv_get (p : peer) (l : list (peer * pv)) : pv := match al_get p l with Some v => v | None => pv0 end.
+Definition pv_set (p : peer) (v : pv) (l : list (peer * pv)) : list (peer * pv) :=
+  (p, v) :: filter (fun e => negb (fst e =? p)) l.
+
+Definition a_set (c : cid) (v : N) (l : list (cid * N)) : list (cid * N) := (c, v) :: filter (fun e => negb (cid_eqb c (fst e))) l.
+Definition a_get (c : cid) (l : list (cid * N)) : option N :=
+  match find (fun e => cid_eqb c (fst e)) l with Some e => Some (snd e) | None => None end.
+Definition a_del (c : cid) (l : list (cid * N)) : list (cid * N) := filter (fun e => negb (cid_eqb c (fst e))) l.
+
+(* c becomes wanted anew: peers that delivered it have to be told again *)
+Definition pv_wanted_anew (c : cid) (v : pv) : pv :=
+  match a_get c (v_ans v) with
+  | Some 2 => MkPv (v_view v) (a_del c (v_ans v)) (v_deliv v) (cid_remove c (v_told v))
+  | _ => v
+  end.
+
+Definition pv_presence (v : pv) (ch : cid * bool) : pv :=
+  if cid_mem (fst ch) (v_told v)
+  then MkPv (v_view v) (a_set (fst ch) (if snd ch then 0 else 1) (v_ans v)) (v_deliv v) (v_told v) else v.
+
+(* a block for c from this peer; `accepted` = the node was waiting for it *)
+Definition pv_block (accepted : bool) (v : pv) (c : cid) : pv :=
+  MkPv (cid_remove c (v_view v))
+       (if accepted && cid_mem c (v_told v) then a_set c 2 (v_ans v) else v_ans v)
+       (if cid_mem c (v_deliv v) then v_deliv v else c :: v_deliv v) (v_told v).
+
+Definition ge_view (v : list cid) (e : gen_entry) : list cid :=
+  match fst e with KCancel => cid_remove (snd e) v | _ => if cid_mem (snd e) v then v else snd e :: v end.
+
+(* a wantlist generated for the peer: checks, then the new ghost state *)
+Definition pv_generate (w : list cid) (v : pv) (full : bool) (es : list gen_entry) : pv * bool :=
+  let view1 := fold_left ge_view es (if full then [] else v_view v) in
+  let wants := map snd (filter is_want es) in
+  let cancels := map snd (filter (fun e => negb (is_want e)) es) in
+  let announced := forallb (fun c => cid_mem c (v_told v) || cid_mem c wants) w in
+  let ans1 := filter (fun e => cid_mem (fst e) w) (v_ans v) in
+  let deliv1 := filter (fun c => negb (cid_mem c wants)) (v_deliv v) in
+  let dh1 := map fst (filter (fun e => snd e =? 1) ans1) in
+  let sound := forallb (fun c => cid_mem c w) view1 in
+  let complete := forallb (fun c => cid_mem c view1 || cid_mem c dh1 || cid_mem c deliv1) w in
+  let exact := if full then set_eqb cid_eqb wants (filter (fun c => negb (cid_mem c dh1)) w)
+                            && match cancels with [] => true | _ => false end
+               else true in
+  (MkPv view1 ans1 deliv1 w, announced && sound && complete && exact).
+
+(* the live set W after an op, from the oracle state of the C03 fold: CIDs of missed queries still waiting *)
+Definition live_cids (o : ost) : list cid :=
+  fold_left (fun acc q =>
+               if negb (n_mem q (o_answered o)) && negb (n_mem q (o_cancelled o))
+               then match al_get q (o_q o) with
+                    | Some (Some c) => if cid_mem c acc then acc else acc ++ [c]
+                    | _ => acc
+                    end
+               else acc) (o_missed o) [].
+
+Definition c4_step (known : list peer) (o_before o_after : ost) (g : c4) (op : cop) (obs : cobs) : c4 :=
+  (* sessions that ended (no state for the peer any more) are forgotten *)
+  let peers0 := filter (fun e => n_mem (fst e) (snap_peers (snd obs)) || n_mem (fst e) known) (c4_peers g) in
+  let w_before := c4_w g in
+  match op with
+  | CIncoming p pres blocks =>
+      if negb (n_mem p known) then MkC4 w_before peers0 (c4_ok g) else
+      let v1 := fold_left pv_presence pres (pv_get p peers0) in
+      (* blocks one by one: accepted iff its CID is wanted at that moment *)
+      let '(v2, w2) := fold_left (fun acc b => let '(v, w) := acc in
+                                               let accepted := cid_mem (fst b) w in
+                                               (pv_block accepted v (fst b), cid_remove (fst b) w)) blocks (v1, w_before) in
+      MkC4 w2 (pv_set p v2 peers0) (c4_ok g)
+  | CPoll _ =>
+      (* misses noticed by this poll enlarge W before any wantlist is generated *)
+      let w1 := live_cids o_after in
+      let anew := filter (fun c => negb (cid_mem c w_before)) w1 in
+      let peers1 := map (fun e => (fst e, fold_left (fun v c => pv_wanted_anew c v) anew (snd e))) peers0 in
+      fold_left (fun g out =>
+                   match out with
+                   | OSendWantlist p _ full es =>
+                       let '(v', ok) := pv_generate (c4_w g) (pv_get p (c4_peers g)) full es in
+                       MkC4 (c4_w g) (pv_set p v' (c4_peers g)) (c4_ok g && ok)
+                   | _ => g
+                   end) (fst obs) (MkC4 w1 peers1 (c4_ok g))
+  | _ =>
+      (* cancels shrink W *)
+      MkC4 (live_cids o_after) peers0 (c4_ok g)
+  end.
+
+Fixpoint c4_run (known : list peer) (o : ost) (g : c4) (ops : list cop) (obs : list cobs) : c4 :=
+  match ops, obs with
+  | op :: ops', ob :: obs' =>
+      let o' := o_step known o op ob in
+      c4_run (snap_peers (snd ob)) o' (c4_step known o o' g op ob) ops' obs'
+  | _, _ => g
+  end.
+
+Definition oracle_C04 (x : case) : bool := c4_ok (c4_run [] o0 (MkC4 [] [] true) (snd (fst x)) (snd x)).
+
+Fixpoint c4_first_bad (known : list peer) (i : N) (o : ost) (g : c4) (ops : list cop) (obs : list cobs) : option N :=
+  match ops, obs with
+  | op :: ops', ob :: obs' =>
+      let o' := o_step known o op ob in
+      let g' := c4_step known o o' g op ob in
+      if c4_ok g' then c4_first_bad (snap_peers (snd ob)) (i + 1) o' g' ops' obs' else Some i
+  | _, _ => None
+  end.
+Definition first_bad_c4 (x : case) : option N := c4_first_bad [] 0 o0 (MkC4 [] [] true) (snd (fst x)) (snd x).
+
+Definition oracle (x : case) : bool := oracle_base x && oracle_C04 x.
